@@ -368,3 +368,14 @@ Proof.
   assert (X := step_LI g s o HL). assert (Y := step_no_oof g s o HL).
   destruct (step g s o); simpl in X; try contradiction; apply IH; tauto.
 Qed.
+
+(** Note.  The stronger invariant of the reachable states ((E') every parent link is an edit,
+    (C) a row is not current iff it is superseded) is proved in Proofs/TagsFull.v, and the
+    refinement `current tags = key-value model`, command by command, in Proofs/TagsRefine.v:
+      - `add`: the effective parents are [] at the top and [i] with i superseded in the walk, so no
+        current row is invalidated; a candidate that exists and is not superseded is current by (C),
+        a superseded one is walked to a leaf that is new or current, a missing one is inserted current;
+      - `update`: the parents are the current rows of the given keys; if there are any, the candidate
+        rows (content, parents) cannot exist (parents of existing rows are not current), so they are
+        inserted and the parents invalidated;
+      - `rm`: likewise with the single delete marker. *)
